@@ -68,6 +68,8 @@ def _wrap1(t):
     yield dict(p="Stack", kids=[t, dict(p="L1Reg", lam=0.5)])
     yield dict(p="Stack", kids=[dict(p="L2Proj", eps=1.0), t])
     yield dict(p="Stack", kids=[t, t], same=True)     # ONE prox object in both slots
+    yield dict(p="Stack", kids=[t, dict(p="L1Reg", lam=0.5), dict(p="L2Proj", eps=1.0)])            # three and four blocks:
+    yield dict(p="Stack", kids=[dict(p="L2Reg", lam=1.0, bias=True), dict(p="LInfProj", eps=0.5), t, dict(p="L1Reg", lam=1.0)])   # the 3rd, 4th offset
 
 
 def programs(depth):
@@ -82,7 +84,22 @@ def programs(depth):
     return out
 
 
+def _wide_stack(prog):
+    if prog["p"] == "Stack" and len(prog["kids"]) > 2:
+        return True
+    return any(_wide_stack(k) for k in ([prog["kid"]] if "kid" in prog else prog.get("kids", [])))
+
+
 def gen_cases(tier, seed):
+    cases = _gen_cases(tier, seed)
+    # stacks of three and four blocks only at one level and on the smallest shape (their lattices grow as 2^(4n))
+    def flat(prog):
+        return prog["p"] == "Stack" and all("kid" not in k and "kids" not in k for k in prog["kids"])
+    return [c for c in cases if not (c.get("prog") and _wide_stack(c["prog"]) and
+                                     (c.get("shape") != [2] or not flat(c["prog"]) or c["kind"] != "prox" or c.get("aform")))]
+
+
+def _gen_cases(tier, seed):
     T = tier == "thorough"
     cases = []
     shapes1 = [[2], [3], [2, 1], [2, 2]] + ([[2, 1, 2]] if T else [])
